@@ -58,7 +58,7 @@ theorem updateBondOrder_total {T m} (hI : RInv T m) {l r n : Nat} (hlr : l < r)
       · split at hres
         · rename_i hring
           bind_err_at hres with ⟨_, _, hres⟩
-          · obtain ⟨rowl, hrowl, habm, habd⟩ := getDirBond_ok h1
+          · obtain ⟨rowl, hrowl, habm, habd⟩ := getDirBond_okM h1
             obtain ⟨row', hk', y, hy, hy1, _, _⟩ := hI.mirror l rowl hrowl ab habm hring
             rw [habd] at hk'
             obtain ⟨b', hb'⟩ := getDirBond_total hk' hy hy1
@@ -254,10 +254,10 @@ theorem formRings_step (T : Table) (req : RingReq) (rest : List RingReq) (m : Mo
     have h2 := getIdx_total (l := m.atoms) (i := ridx) (by omega)
     have h3 := getIdx_total (l := m.counts) (i := lidx) (by omega)
     have h4 := getIdx_total (l := m.counts) (i := ridx) (by omega)
-    have hal := getIdx_ok h1
-    have har := getIdx_ok h2
-    have hcl := getIdx_ok h3
-    have hcr := getIdx_ok h4
+    have hal := getIdx_okD h1
+    have har := getIdx_okD h2
+    have hcl := getIdx_okD h3
+    have hcr := getIdx_okD h4
     generalize m.atoms[lidx]'(by omega) = latom at h1 hal
     generalize m.atoms[ridx]'(by omega) = ratom at h2 har
     generalize m.counts[lidx]'(by omega) = lcount at h3 hcl
@@ -280,7 +280,7 @@ theorem formRings_step (T : Table) (req : RingReq) (rest : List RingReq) (m : Mo
         rename_i hhb
         obtain ⟨row, b, hrow, hbm, hbd⟩ := hasBond_ok hlr hhb
         obtain ⟨bond, h5⟩ := getDirBond_total hrow hbm hbd
-        obtain ⟨row', hrow', hbm', hbd'⟩ := getDirBond_ok h5
+        obtain ⟨row', hrow', hbm', hbd'⟩ := getDirBond_okM h5
         rw [hrow] at hrow'; cases hrow'
         have hbo := hI.bonds _ _ hrow _ hbm'
         obtain ⟨m1, h6⟩ := updateBondOrder_total hI hlr hlt (n := min (o + bond.order) 3)
@@ -327,8 +327,8 @@ theorem formRings_step (T : Table) (req : RingReq) (rest : List RingReq) (m : Mo
         have hrrm : ridx < rm.length := by rw [hM.len]; omega
         have h5 := getIdx_total hlrm
         have h6 := getIdx_total hrrm
-        have hlp := getIdx_ok h5
-        have hrp := getIdx_ok h6
+        have hlp := getIdx_okD h5
+        have hrp := getIdx_okD h6
         generalize rm[lidx] = lp at h5 hlp
         generalize rm[ridx] = rp at h6 hrp
         obtain ⟨rowa, e1⟩ : ∃ rowa, m.adj[lidx]? = some rowa := ⟨_, List.getElem?_eq_getElem (by omega)⟩
